@@ -62,14 +62,14 @@ pub fn check_pair(a: &Curve<Coord2>, b: &Curve<Coord2>, stats: &mut Stats, desc:
     let tol = 1e-9 * scale;
     for (which, fl) in [("from_curve", FatLine::from_curve(a)), ("from_curve_perpendicular", FatLine::from_curve_perpendicular(a))] {
         let (dmin, dmax) = (fl.verif_d_min(), fl.verif_d_max());
-        if !dmin.is_finite() || !dmax.is_finite() { stats.excluded += 1; stats.count("excluded.non_finite_strip"); continue; }
+        if !dmin.is_finite() || !dmax.is_finite() { stats.fail("C13", &format!("strip_not_finite.{}", which), &format!("{} strip=[{}, {}]", desc, dmin, dmax)); continue; }
         // the strip contains every point of its own curve; for coincident end points the base line goes through the
         // start point only and the documented slack is the distance of the end point (<= 1e-7)
         let slack = if a.start_point().is_near_to(&a.end_point(), 0.0000001) { 1e-7 } else { 0.0 };
         for k in 0..=1000 {
             let t = k as f64 / 1000.0;
             let d = fl.distance(&a.point_at_pos(t));
-            if d < dmin - tol - slack || d > dmax + tol + slack {
+            if lt(d, dmin - tol - slack) || gt(d, dmax + tol + slack) {
                 stats.fail("C13", &format!("strip_does_not_contain_curve.{}", which), &format!("{} t={} distance={} strip=[{}, {}]", desc, t, d, dmin, dmax));
                 break;
             }
@@ -84,7 +84,7 @@ pub fn check_pair(a: &Curve<Coord2>, b: &Curve<Coord2>, stats: &mut Stats, desc:
                     None => { stats.fail("C13", &format!("clip_none_but_point_in_strip.{}", which), &format!("{} t={} distance={} strip=[{}, {}]", desc, t, d, dmin, dmax)); break; }
                     Some((t1, t2)) => {
                         // 1e-5: the snapping window of round_y_value
-                        if t < t1 - 1e-5 - 1e-9 || t > t2 + 1e-5 + 1e-9 { stats.fail("C13", &format!("point_in_strip_outside_clip_range.{}", which), &format!("{} t={} distance={} strip=[{}, {}] clip=({}, {})", desc, t, d, dmin, dmax, t1, t2)); break; }
+                        if lt(t, t1 - 1e-5 - 1e-9) || gt(t, t2 + 1e-5 + 1e-9) { stats.fail("C13", &format!("point_in_strip_outside_clip_range.{}", which), &format!("{} t={} distance={} strip=[{}, {}] clip=({}, {})", desc, t, d, dmin, dmax, t1, t2)); break; }
                     }
                 }
             }
